@@ -435,6 +435,8 @@ pub enum Mutation {
     /// renumber a harness slot descriptor (C09)
     Dup3Slot { slot: usize, newfd: i32 },
     Chmod { path: String, mode: u32 },
+    /// close a low descriptor of the process (0: the next descriptor the kernel hands out is 0)
+    CloseFd { fd: i32 },
 }
 
 impl Mutation {
@@ -454,6 +456,7 @@ impl Mutation {
             Mutation::MountOn { src, dst, nofollow } => json!(["mount_on", src, dst, nofollow]),
             Mutation::Dup3Slot { slot, newfd } => json!(["dup3slot", slot, newfd]),
             Mutation::Chmod { path, mode } => json!(["chmod", path, mode]),
+            Mutation::CloseFd { fd } => json!(["closefd", fd]),
         }
     }
     pub fn from_json(v: &Value) -> Option<Mutation> {
@@ -475,6 +478,7 @@ impl Mutation {
             "mount_on" => Mutation::MountOn { src: s(1), dst: s(2), nofollow: a.get(3).and_then(|x| x.as_bool()).unwrap_or(false) },
             "dup3slot" => Mutation::Dup3Slot { slot: n(1) as usize, newfd: n(2) as i32 },
             "chmod" => Mutation::Chmod { path: s(1), mode: n(2) as u32 },
+            "closefd" => Mutation::CloseFd { fd: n(1) as i32 },
             _ => return None,
         })
     }
@@ -508,6 +512,7 @@ impl Mutation {
             }
             Mutation::Dup3Slot { .. } => "dup3slot",
             Mutation::Chmod { .. } => "chmod",
+            Mutation::CloseFd { .. } => "closefd",
         }
     }
 }
@@ -662,6 +667,12 @@ impl World {
             }
             Mutation::Chmod { path, mode } => {
                 sys::fchmodat(libc::AT_FDCWD, &abs(path), *mode)?;
+                Ok(true)
+            }
+            Mutation::CloseFd { fd } => {
+                if *fd >= 0 && *fd < 3 {
+                    sys::close(*fd);
+                }
                 Ok(true)
             }
             Mutation::MountOn { src, dst, nofollow } => {
